@@ -360,8 +360,8 @@ func c16Recovery(in c16In) (c16Obs, []string, string, error) {
 	}
 	var spends []spendRef
 	for _, b := range in.Blocks {
-		if b.H < scanFrom {
-			continue
+		if b.H < scanFrom || b.H > in.Len {
+			continue // not scanned / not on the chain
 		}
 		for _, t := range b.Txs {
 			for n, i := range t.Ins {
@@ -630,7 +630,7 @@ func c16ExpectFrom(in c16In) int32 {
 func c16WithinLookahead(in c16In, scanFrom int32) bool {
 	fb := map[[2]uint32]int64{}
 	for _, b := range in.Blocks {
-		if b.H < scanFrom {
+		if b.H < scanFrom || b.H > in.Len {
 			continue
 		}
 		bm := map[[2]uint32]int64{}
@@ -707,6 +707,9 @@ func c16GenRecovery(r *gen.R, long bool) (c16In, []string) {
 			h = int32(r.Range(1997, 2003))
 			if h < first {
 				h = first
+			}
+			if h > in.Len {
+				h = in.Len
 			}
 		}
 		hs[h] = true
